@@ -175,6 +175,7 @@ func init() {
 			{Fn: "H_members", Fuel: 20_000_000, Tier: "quick", Reach: []string{"end"}},
 			{Fn: "H_factory", Fuel: 20_000_000, Tier: "quick", Reach: []string{"end"}},
 			{Fn: "H_site_reuse", Fuel: 20_000_000, Tier: "quick", Reach: []string{"end"}},
+			{Fn: "H_template_first", Fuel: 20_000_000, Tier: "quick", Reach: []string{"end"}},
 			{Fn: "H_pair_two", Fuel: 20_000_000, Tier: "quick", Reach: []string{"end"}},
 			{Fn: "H_member_forms", Fuel: 20_000_000, Tier: "quick", Reach: []string{"end"}},
 			{Fn: "H_history", Params: k(2), Fuel: 20_000_000, Tier: "quick", Reach: []string{"end"}},
@@ -294,7 +295,7 @@ func init() {
 			c17("H_reflect_int", nil), c17("H_reflect_int64", nil), c17("H_reflect_float", nil), c17("H_reflect_bool", nil),
 			c17("H_reflect_str", n(0)), c17("H_reflect_str", n(1)), c17("H_reflect_str", n(2)), c17("H_reflect_str", n(3)),
 			c17("H_reflect_arity", nil), c17("H_reflect_nocrash", nil),
-			c17("H_reflect_sized", nil), c17("H_reflect_float_to_int", nil), c17("H_reflect_unsigned_result", nil), c17("H_reflect_float_result", nil), c17("H_reflect_defined", nil),
+			c17("H_reflect_sized", nil), c17("H_reflect_float_to_int", nil), c17("H_reflect_unsigned_result", nil), c17("H_reflect_float_result", nil), c17("H_reflect_defined", nil), c17("H_reflect_float32_param", nil),
 			c17("H_reflect_method", n(0)), c17("H_reflect_method", n(1)), c17("H_reflect_method", n(2)),
 		},
 		Rule:        rule + "; script-side payloads are full-width symbolic ints/doubles/bools and fully symbolic byte strings (incl. non-UTF-8) of the stated length; the reflective path is driven through a real parsed script call; H_reflect_sized: int8/int16/int32/uint8/uint32/uint64 parameters accept exactly the representable values of a full-range symbolic int; H_reflect_float_to_int: a symbolic double passed to an int parameter; H_reflect_method: the methods of a registered struct (ReflectClass / ReflectMethod) for int64, float64, string, bool, int8 and arity 2; H_reflect_float_result: float32 (concrete pool) and float64 (symbolic) results bit for bit",
